@@ -417,7 +417,33 @@ fn case(i: u64, rng: &mut Rng, st: &mut State) {
     let lv = coin::take_log();
     st.evals += 1;
     if !matches!(r, Ok(Ok(()))) {
-        st.count("skipped.verifier_rejected(C01)");
+        // an honest proof that is rejected is C01's event; the part of the claim that is C04's own still
+        // applies to what the verifier did before it gave up: every coin operation it performed must be the
+        // operation the prover performed at the same point, with the same absorbed data and the same output
+        st.count("verifier_rejected(C01).prefix_compared");
+        let a: Vec<Ev> = lp.iter().map(|e| e.ev.clone()).collect();
+        let b: Vec<Ev> = lv.iter().map(|e| e.ev.clone()).collect();
+        let k = a.iter().zip(b.iter()).position(|(x, y)| x != y);
+        // the only legitimate deviations are the verifier's unused extra alpha after the remainder commitment
+        // and its proof-of-work check, i.e. an operation of the verifier where the prover draws the positions
+        let legit = |k: usize| matches!(a.get(k), Some(Ev::Ints { .. })) && matches!(b.get(k), Some(Ev::Draw { .. }) | Some(Ev::Clz { .. }));
+        if let Some(k) = k {
+            if !legit(k) {
+                st.violation(
+                    "prover-verifier-transcripts-differ:before-rejection",
+                    J::obj(vec![
+                        ("field", J::s(format!("{:?}", inst.fd))),
+                        ("hasher", J::s(format!("{:?}", inst.hs))),
+                        ("options", J::s(format!("{:?}", inst.options))),
+                        ("shape", inst.shape.json()),
+                        ("verifier_result", J::s(wfv::report::truncate(&format!("{r:?}"), 120))),
+                        ("why", J::s(format!("first difference at operation {k}: prover {} / verifier {}", wfv::report::truncate(&format!("{:?}", a.get(k)), 70), wfv::report::truncate(&format!("{:?}", b.get(k)), 70)))),
+                    ]),
+                );
+            }
+        } else if b.len() > a.len() {
+            st.violation("prover-verifier-transcripts-differ:before-rejection", J::s("the verifier performed more coin operations than the prover"));
+        }
         return;
     }
     st.add("prover.proof_of_work_candidates", searched);
